@@ -71,6 +71,9 @@ func genEmuConfig(r *rand.Rand) procdrv.EmuConfig {
 	for i := range c.GnbID {
 		c.GnbID[i] = byte(r.Intn(128))
 	}
+	if r.Intn(5) == 0 { // an identifier whose octets happen to read as text in some notation (hexadecimal, decimal, a YAML keyword): it is still these octets
+		c.GnbID = textOctets(r, len(c.GnbID))
+	}
 	n := pick(r, 1, 2, 7, 20, 150, 1+r.Intn(150))
 	nb := make([]byte, n)
 	for i := range nb {
@@ -230,4 +233,29 @@ func tail(s string, n int) string {
 		s = "…" + s[len(s)-n:]
 	}
 	return strings.ReplaceAll(s, "\n", " | ")
+}
+
+// textOctets: n octets that read as text in a notation some layer might be tempted to interpret.
+func textOctets(r *rand.Rand, n int) []byte {
+	var alphabet string
+	switch r.Intn(5) {
+	case 0:
+		alphabet = "0123456789abcdef"
+	case 1:
+		alphabet = "0123456789ABCDEF"
+	case 2:
+		alphabet = "0123456789"
+	case 3:
+		alphabet = "abcdefABCDEF"
+	default:
+		if n == 4 {
+			return []byte(pick(r, "true", "null", "0x10", "1e10", "0b01", "0o17", "cafe", "BEEF", "1234", "+123", "-001", "12.5", "NULL", "True"))
+		}
+		return []byte(pick(r, "yes", "off", "0x1", "1e3", "abc", "ABC", "123", "-12", "1.5", "~~~", "nan", "NaN", "inf"))[:n]
+	}
+	b := make([]byte, n)
+	for i := range b {
+		b[i] = alphabet[r.Intn(len(alphabet))]
+	}
+	return b
 }
